@@ -178,12 +178,18 @@ func (r *Run) classify(e *Exch, by map[int]*OResp) *cls {
 					}
 				}
 			}
+			// the Date the age is reckoned from: the one the header provenance carried, or - if it had none that can
+			// be used - the time it was received (RFC 9110 §6.6.1), whatever the served copy now shows
+			dateFor := hv.Header.Get("Date")
+			if _, ok := parseDate(dateFor); !ok {
+				dateFor = r.httpTime(hv.TResp)
+			}
 			first := true
 			for _, av := range cands {
-				if l2, _ := currentAge(av, e.Header.Get("Date"), r.Sim.Epoch0, hv.TStart, hv.TResp, e.TRetRaw, e.TRetRaw); first || l2 < c.ageAtRetLo {
+				if l2, _ := currentAge(av, dateFor, r.Sim.Epoch0, hv.TStart, hv.TResp, e.TRetRaw, e.TRetRaw); first || l2 < c.ageAtRetLo {
 					c.ageAtRetLo = l2
 				}
-				lo, hi := currentAge(av, e.Header.Get("Date"), r.Sim.Epoch0, hv.TStart, hv.TResp, e.TInv, e.TRetRaw)
+				lo, hi := currentAge(av, dateFor, r.Sim.Epoch0, hv.TStart, hv.TResp, e.TInv, e.TRetRaw)
 				if first {
 					c.ageLo, c.ageHi, first = lo, hi, false
 				} else {
@@ -377,7 +383,15 @@ func judgeFailOpen(r *Run, j *Judged, c *cls) {
 			}
 		}
 	}
-	if c.reply != nil && c.reply.Resp != nil && c.reply.Resp.Complete && e.BodyRead && c.B != nil {
+	if c.reply != nil && c.reply.Resp != nil && !c.reply.Resp.Complete && e.BodyRead && e.Err == "" {
+		// the origin's message was cut short in a way its framing reveals (declared length, chunked coding, reset):
+		// the caller reading the forwarded body must see the failure, not a clean end after a prefix
+		j.count("C05", "miss-body-differs")
+		if e.BodyErr == "" && len(e.Body) < len(c.reply.Resp.Body) {
+			j.fail("C05", "miss-body-differs", e, "cut-short-clean-end", "the origin's message (sid %d, %d body bytes) was cut short on the wire, yet the forwarded body ended without an error after %d bytes", c.reply.Resp.SID, len(c.reply.Resp.Body), len(e.Body))
+		}
+	}
+	if c.reply != nil && c.reply.Resp != nil && c.reply.Resp.Complete && e.BodyRead && c.B != nil && e.Op.CancelNs == 0 {
 		j.count("C05", "miss-body-differs")
 		if e.BodyErr != "" || !bytes.Equal(e.Body, c.B.Body) {
 			j.fail("C05", "miss-body-differs", e, "", "response forwarded from the origin (sid %d) has body len=%d err=%q, origin sent len=%d", c.B.SID, len(e.Body), e.BodyErr, len(c.B.Body))
@@ -737,15 +751,12 @@ func judgeFidelity(r *Run, j *Judged, c *cls) {
 		// (a 304 that answered a client's own conditional may have been merged too: then any 304 qualifies)
 		clientCond := r.clientConditionalSince(c.B, c.H.SeqResp+1)
 		ets, lms := map[string]bool{"": true}, map[string]bool{"": true}
-		note := func(h http.Header) { ets[h.Get("Etag")], lms[h.Get("Last-Modified")] = true, true }
+		// (entity tags are compared by their opaque part: a request built from an earlier copy of the entry may
+		// carry W/"x" where B has "x" - the origin's weak comparison answers 304 all the same. A 304 for
+		// validators B never had - those of a representation B replaced - does not belong to B.)
+		opaque := func(et string) string { return strings.TrimPrefix(et, "W/") }
+		note := func(h http.Header) { ets[opaque(h.Get("Etag"))], lms[h.Get("Last-Modified")] = true, true }
 		note(c.B.Header)
-		// (a conditional request built from the representation B replaced may be answered 304 after B was stored
-		// and then be merged into B: validators of earlier responses of the resource count as well)
-		for _, o := range r.OResps {
-			if o.Res == c.B.Res && o.SeqResp < c.B.SeqResp {
-				note(o.Header)
-			}
-		}
 		for pass := 0; pass < 2; pass++ {
 			chain = chain[:0]
 			for _, o := range r.OResps {
@@ -753,7 +764,7 @@ func judgeFidelity(r *Run, j *Judged, c *cls) {
 					continue
 				}
 				inm, ims := o.Req.Header.Get("If-None-Match"), o.Req.Header.Get("If-Modified-Since")
-				if !clientCond && !((inm != "" && ets[inm]) || (inm == "" && ims != "" && lms[ims])) {
+				if !clientCond && !((inm != "" && ets[opaque(inm)]) || (inm == "" && ims != "" && lms[ims])) {
 					continue // (If-Modified-Since may also be the client's own)
 				}
 				chain = append(chain, o)
@@ -1033,9 +1044,13 @@ func judgeSIE(r *Run, j *Judged, c *cls, by map[int]*OResp) {
 	}
 	_, ncQualified := scc["no-cache"]
 	forbidden := scc.has("must-revalidate") || (ncQualified && scc["no-cache"] == "")
-	if c.reqCC.has("no-cache") || c.reqCC.has("max-age") || c.reqCC.has("min-fresh") {
-		return // request no-cache / max-age / min-fresh + stale-if-error: the statement does not settle what "staleness" is then
+	if c.reqCC.has("max-age") || c.reqCC.has("min-fresh") {
+		return // request max-age / min-fresh + stale-if-error: the statement does not settle what "staleness" is then
 	}
+	// request no-cache: whether stale-if-error may answer such a request at all is not settled either, so "must be
+	// served" is not claimed; but outside the window (or with a forbidding directive, or an ineligible status) the
+	// stored response must not be served under either reading
+	reqNoCache := c.reqCC.has("no-cache")
 	g := c.guard(r)
 	servedB := c.stored && c.B == B
 	staleHi, staleLo := satAdd(aHi, -lLo), satAdd(aLo, -lHi)
@@ -1050,6 +1065,8 @@ func judgeSIE(r *Run, j *Judged, c *cls, by map[int]*OResp) {
 	}
 	staleHiRet := satAdd(aHiRet, -lLo)
 	switch {
+	case reqNoCache && eligible && nLo >= 0 && !forbidden && !(lHi != inf && staleLo > satAdd(nHi, g)):
+		// inside (or possibly inside) the window with request no-cache: not judged
 	case eligible && nLo >= 0 && !forbidden && lLo != inf && aHi != inf && aHiRet != inf && satAdd(staleHi, g) < nLo && satAdd(staleHiRet, g) < nLo:
 		j.count("C13", "sie-not-served")
 		r.probe("sie-window-inside")
@@ -1119,6 +1136,9 @@ func (r *Run) chainExact(B *OResp, e *Exch) bool {
 	for _, o := range r.Calls {
 		if o.Res == B.Res && o.SeqStart > B.SeqResp && o.SeqStart < e.SeqInv && safeMethods[o.Req.Method] {
 			since = append(since, o)
+		}
+		if o != B.Call && o.Res == B.Res && o.SeqStart <= B.SeqResp && r.lastSeqOfLineage(o) > B.SeqResp && safeMethods[o.Req.Method] {
+			return false // a validation that began before B arrived was still at work afterwards
 		}
 	}
 	for i, a := range since {
@@ -1306,6 +1326,9 @@ func judgeSWR(r *Run, j *Judged, c *cls) {
 		if o != u && o.Res == u.Res && o.SeqStart > c.B.SeqResp && o.SeqStart < u.SeqStart {
 			since = append(since, o)
 		}
+		if o != u && o != c.B.Call && o.Res == u.Res && o.SeqStart <= c.B.SeqResp && r.lastSeqOfLineage(o) > c.B.SeqResp && safeMethods[o.Req.Method] {
+			exact = false // a validation that began before B arrived was still at work afterwards
+		}
 	}
 	// (a validation works with the validators its exchange read from the store when it was invoked - for a
 	// background one that is before the caller was answered, well before the origin call starts)
@@ -1328,7 +1351,9 @@ func judgeSWR(r *Run, j *Judged, c *cls) {
 			}
 		}
 	}
-	unconditional := (et != "" || lm != "") && u.Req.Header.Get("If-None-Match") == "" && u.Req.Header.Get("If-Modified-Since") == ""
+	// (the validators are those of the copy the background goroutine loads; when other validations of the
+	// resource were at work in between, that copy may be another response, even one without validators)
+	unconditional := exact && (et != "" || lm != "") && u.Req.Header.Get("If-None-Match") == "" && u.Req.Header.Get("If-Modified-Since") == ""
 	if exact && ((et != "" && u.Req.Header.Get("If-None-Match") != et) || (lm != "" && u.Req.Header.Get("If-Modified-Since") != lm)) {
 		unconditional = true
 	}
